@@ -606,6 +606,7 @@ def replay(prop_id, path):
         env.pop("PYTHONOPTIMIZE", None)
         if want_opt:
             env["PYTHONOPTIMIZE"] = "1"
+            env["PYTHONWARNINGS"] = "ignore::SyntaxWarning"
         os.execve(sys.executable, [sys.executable, "-m", "harness.main", prop_id, "--replay", path], env)
     mod = load(prop_id)
     try:
